@@ -63,6 +63,142 @@ def lockRun (s : LockSys) : List String → Nat → String
       | none => s!"blocked@{k} {showLock s}"
       | some s' => lockRun s' as (k + 1)
 
+/-! ### replay of an observed lock trace (hook `verif_sched`) on the lock model
+
+events: `N<entry>` the loop enters a notification handler; `W` write guard acquired; `r` about to be
+released; `B`/`E` apply_change begins / returns; `s` snapshot taken; `S<tid>=<handler>` task spawned;
+`a<tid>` / `l<tid>` a task acquired / is about to release the read guard; `e<tid>` the task ended.
+Queries are not observable: a task's query steps are taken as early as possible; operations of
+the extracted program that the run skipped (branches not taken) are skipped, never applied. -/
+
+structure Tr where
+  sys : LockSys
+  tids : List Nat
+  skipped : Nat
+
+def skipTo (p : Op → Bool) : List Op → Nat → Option (List Op × Nat)
+  | [], _ => none
+  | o :: r, n => if p o then some (o :: r, n) else skipTo p r (n + 1)
+
+def headIsQuery (t : Task) : Bool := match t.prog with | .query _ :: _ => true | _ => false
+
+def advance (s : LockSys) (i : Nat) : Nat → LockSys
+  | 0 => s
+  | fuel + 1 =>
+    match s.tasks[i]? with
+    | some t => if headIsQuery t then
+        match lstep s (.task i) with
+        | some s' => advance s' i fuel
+        | none => s
+      else s
+    | none => s
+
+def isAcq : Op → Bool | .acqVfsW => true | .acqVfsR => true | _ => false
+def isRel : Op → Bool | .relVfs => true | _ => false
+def isDb : Op → Bool | .dbWrite => true | _ => false
+def isSnap : Op → Bool | .snap => true | _ => false
+def isSpawn : Op → Bool | .spawn => true | _ => false
+
+def opsOf (entry : String) : List Op := inline Glas.Gen.serverMethods 6 [.call entry]
+
+def mainEvent (t : Tr) (p : Op → Bool) (choice : Nat) (what : String) : Except String Tr :=
+  match skipTo p t.sys.mainOps 0 with
+  | none => .error s!"{what}: the extracted program of this entry point has no such operation left"
+  | some (ops, n) =>
+    match lstep { t.sys with mainOps := ops } (.main choice) with
+    | none => .error s!"{what}: not enabled in the model"
+    | some s' => .ok { t with sys := s', skipped := t.skipped + n }
+
+def taskIndex (t : Tr) (tid : Nat) : Except String Nat :=
+  match t.tids.findIdx? (· == tid) with
+  | some i => .ok i
+  | none => .error s!"unknown task {tid}"
+
+def traceEvent (t : Tr) (ev : String) : Except String Tr :=
+  match ev.toList with
+  | 'N' :: r =>
+    if t.sys.mainHoldsVfs then .error "entered a handler while holding the document-store guard"
+    else .ok { t with sys := { t.sys with mainOps := opsOf (String.ofList r) }, skipped := t.skipped + t.sys.mainOps.length }
+  | ['W'] => do
+    let t' ← mainEvent t isAcq 0 "write guard"
+    if t'.sys.mainHoldsVfs then .ok t' else .error "write guard acquired while a request task holds a read guard"
+  | ['r'] => mainEvent t isRel 0 "release"
+  | ['B'] =>
+    match skipTo isDb t.sys.mainOps 0 with
+    | none => .error "apply_change: not in the extracted program"
+    | some (ops, n) =>
+      if t.sys.mainHoldsVfs then .error "apply_change requested while the loop thread holds the document-store guard"
+      else
+        -- `B` is logged before the call: the cancellation flag is raised at an unobservable later
+        -- moment, so the replay leaves it to `E` (tasks that were cancelled show up as early exits)
+        .ok { t with sys := { t.sys with mainOps := ops }, skipped := t.skipped + n }
+  | ['E'] =>
+    match t.sys.mainOps with
+    | .dbWrite :: _ =>
+      if t.sys.tasks.any taskAlive then .error "apply_change returned while a snapshot was alive"
+      else match lstep t.sys (.main 0) with
+        | some s' => .ok { t with sys := s' }
+        | none => .error "apply_change end: not enabled"
+    | _ => .error "apply_change returned but was not begun"
+  | ['s'] =>
+    match skipTo isSnap t.sys.mainOps 0 with
+    | some _ => mainEvent t isSnap 0 "snapshot"
+    | none =>
+      if t.sys.mainHoldsVfs then .error "request dispatched while holding the document-store guard"
+      else mainEvent { t with sys := { t.sys with mainOps := opsOf "spawn_with_snapshot" }, skipped := t.skipped + t.sys.mainOps.length } isSnap 0 "snapshot"
+  | 'S' :: r =>
+    match (String.ofList r).splitOn "=" with
+    | [a, b] => match a.toNat?, b.toNat? with
+      | some tid, some h => do
+        let t' ← mainEvent t isSpawn h "spawn"
+        let i := t'.sys.tasks.length - 1
+        .ok { t' with sys := advance t'.sys i 64, tids := t'.tids ++ [tid] }
+      | _, _ => .error "bad spawn event"
+    | _ => .error "bad spawn event"
+  | 'a' :: r => match (String.ofList r).toNat? with
+    | none => .error "bad event"
+    | some tid => do
+      let i ← taskIndex t tid
+      match t.sys.tasks[i]? with
+      | some tk => match tk.prog with
+        | .acqR :: _ =>
+          match lstep t.sys (.task i) with
+          | some s' => .ok { t with sys := advance s' i 64 }
+          | none => .error s!"task {tid} acquired a read guard while the loop thread holds (or waits for) the write guard"
+        | _ => .error s!"task {tid} acquired a read guard where its handler program has none"
+      | none => .error "bad task index"
+  | 'l' :: r => match (String.ofList r).toNat? with
+    | none => .error "bad event"
+    | some tid => do
+      let i ← taskIndex t tid
+      match t.sys.tasks[i]? with
+      | some tk => match tk.prog with
+        | .relR :: _ =>
+          match lstep t.sys (.task i) with
+          | some s' => .ok { t with sys := advance s' i 64 }
+          | none => .error "release not enabled"
+        | _ => .error s!"task {tid} released a read guard where its handler program has none"
+      | none => .error "bad task index"
+  | 'e' :: r => match (String.ofList r).toNat? with
+    | none => .error "bad event"
+    | some tid => do
+      let i ← taskIndex t tid
+      match t.sys.tasks[i]? with
+      | some tk =>
+        if tk.prog.isEmpty then .ok t
+        else match lstep t.sys (.exit i) with
+          | some s' => .ok { t with sys := s' }
+          | none => .error "exit not enabled"
+      | none => .error "bad task index"
+  | _ => .error s!"unknown event {ev}"
+
+def traceRun (t : Tr) : List String → Nat → String
+  | [], _ => s!"ok tasks={t.sys.tasks.length} alive={(t.sys.tasks.filter taskAlive).length} holds={if t.sys.mainHoldsVfs then 1 else 0} skipped={t.skipped}"
+  | e :: es, k =>
+    match traceEvent t e with
+    | .ok t' => traceRun t' es (k + 1)
+    | .error msg => s!"reject@{k} {e}: {msg}"
+
 def splitNE (s : String) (sep : String) : List String := (s.splitOn sep).filter (· != "")
 
 def run (args : List String) : Option String :=
@@ -70,14 +206,16 @@ def run (args : List String) : Option String :=
   | ["conc-run", acts] =>
     some (concRun { flags := Glas.Gen.hostFlags, rev := 0, cancelPending := false, readers := [] } (splitNE acts ";") 0)
   | ["lock-run", entries, acts] =>
-    let ops := inline Glas.Gen.serverMethods 4 ((splitNE entries ",").map Op.call)
+    let ops := inline Glas.Gen.serverMethods 6 ((splitNE entries ",").map Op.call)
     let handlers := Glas.Gen.handlerTasks.map (·.2)
     some (lockRun (initLock ops handlers []) (splitNE acts ";") 0)
+  | ["lock-trace", evs] =>
+    some (traceRun { sys := initLock [] (Glas.Gen.handlerTasks.map (·.2)) [], tids := [], skipped := 0 } (splitNE evs ";") 0)
   | ["lock-handlers"] =>
     some (";".intercalate (Glas.Gen.handlerTasks.map (fun h => h.1 ++ "=" ++ ",".intercalate (h.2.map (fun o => match o with
       | .acqR => "a" | .relR => "r" | .query _ => "q")))))
   | ["lock-ops", entries] =>
-    let ops := inline Glas.Gen.serverMethods 4 ((splitNE entries ",").map Op.call)
+    let ops := inline Glas.Gen.serverMethods 6 ((splitNE entries ",").map Op.call)
     some (",".intercalate (ops.map (fun o => match o with
       | .acqVfsW => "W" | .acqVfsR => "R" | .relVfs => "r" | .dbWrite => "D" | .snap => "s" | .spawn => "S" | .call m => "call:" ++ m)))
   | _ => none
